@@ -19,6 +19,8 @@ THEOREMS = [
     'Pfst.C20.percall_present_decides', 'Pfst.C20.percall_absent_consults', 'Pfst.C20.eff_present_shields',
     'Pfst.C20.eff_all_present_independent', 'Pfst.C20.effSetNorm_all_present_independent',
     'Pfst.C20.effSetNorm_present_shields', 'Pfst.C20.eff_absent_consults',
+    'Pfst.C20.phase_given_ignores_top', 'Pfst.C20.phase_empty_is_defaults', 'Pfst.C20.phase_none_inherits',
+    'Pfst.C20.memo_effective_transparent', 'Pfst.C20.memo_raw_not_transparent',
     'Pfst.C20.thread_frame', 'Pfst.C20.thread_local_step', 'Pfst.C20.machine_exec',
     'Pfst.C20.interleave', 'Pfst.C20.interleave_exec', 'Pfst.C20.stepVis_is_schedule',
     'Pfst.C20.real_tables_wf', 'Pfst.C20.real_set_invalid', 'Pfst.C20.real_block_restores_all',
@@ -35,7 +37,13 @@ RULE = ('(a) check_options on random 1-4 key mappings over the probe domain (23 
         'alone in a fresh thread, and with the big-step model; (d) direct evaluation of the property on every run '
         '(state unchanged by a rejected set/enter, block keys restored on normal and exceptional exit, no change by '
         'get/call, own options stable between own steps, registry empty after calls) plus free-running threads with a '
-        '1 microsecond switch interval vs solo results; (f) three-level lookup: for the options read by each '
+        '1 microsecond switch interval vs solo results; (g) option-dependent READ accessors (own_src/own_lines with and '
+        'without docstr=, get_docstr, get_line_comment, copy(), get_slice()) on the SAME long-lived node objects of the '
+        'thread before/inside/after blocks (left normally and by exception) and around set_options, each read compared '
+        'with the same read on a fresh tree in the same thread at the same moment; the same node read from two threads '
+        'with different defaults; (h) nested option dicts of sub(): copy_options/repl_options in {None, {}, dict} x '
+        'top-level options x block defaults, compared with the same call where each phase is given explicitly what the '
+        'rule None=inherit / dict=as given says it sees (resolution cross-checked with Pfst.Options.phaseView); (f) three-level lookup: for the options read by each '
         '_get_opt_eff_* resolver EVERY (block default x per-call mapping: each key absent or present with each accepted '
         'value incl. None) is run as with options(D): call(O) on operations the resolver decides (emptying a Set, '
         'Delete.targets, an If body, a MatchOr; paren-sensitive copies/puts) against the model, and directly: a call that '
@@ -59,6 +67,10 @@ TRUSTED = [
     'not modelled: aliasing of mutable option objects: option values are immutable data in the model (getOption/call '
     'provably leave the stored values alone, percall_no_leak); that a call does not mutate the object it was handed, or '
     'the object held in the thread default store, is covered only by the by-value/deep-copy checks of the harness',
+    'memoised reads: the model states which cache keys are transparent (memo_effective_transparent / '
+    'memo_raw_not_transparent); the tie to fst.py is behavioural only: every option-dependent read on a long-lived node '
+    'must equal the read on a fresh tree (= no memo). Accessors covered: own_src, own_lines, get_docstr, '
+    'get_line_comment, copy, get_slice; reconcile() trivia_* parameters and dump() are not covered',
     'not modelled: values outside the probe domain (the table is extensional on the probe values); validation of '
     'per-call options by edits is taken to be check_options(options) at entry (checked per call: an edit given options '
     'that check_options rejects must raise the same exception and leave its tree unchanged)',
@@ -329,7 +341,7 @@ def _gen_enumerated(ctx, npairs, cap):
             body = g.stmts(0, 1)
             shapes = [
                 [['catch', [['block', kv, body + [['raise']]]]], ['get', kv[0][0], []]],
-                [['set', kv], ['call', g.kvs('call', 0.0), rng.randrange(len(R.EDITS))], ['get', kv[0][0], []]],
+                [['set', kv], ['call', g.kvs('call', 0.0), rng.choice(R.OPT_IDS)], ['get', kv[0][0], []]],
                 [['block', kv, [['call', [], rng.randrange(len(R.EDITS))]]], ['call', [], R.PERSIST]],
             ]
             progs.append(rng.choice(shapes))
@@ -510,7 +522,7 @@ def _shield_sweep(ctx, full):
         for _ in range(3):
             sub = rng.sample(O, rng.randint(1, len(O)))
             Ds.append([[k, rng.choice([v for v in g.accG[k] if c20_domain._is_plain(d.values[v])])] for k, _ in sub])
-        jobs.append(([], rng.sample(range(R.N_FRESH), 3), O, Ds))
+        jobs.append(([], rng.sample(R.OPT_IDS, 3), O, Ds))
     outs = pmap(_shield_case, jobs)
     n = 0
     for (fns, eids, O, Ds), o in zip(jobs, outs):
@@ -638,7 +650,7 @@ def _doc_multi(ctx, rng, n):
             bad = (rng.choice(c20_domain.BOGUS_NAMES), True)
         else:
             bad = (ns[-1], pick(ns[-1], False))
-        eid = rng.randrange(R.N_FRESH)
+        eid = rng.choice(R.OPT_IDS)
         for pos in range(len(good) + 1):
             items = good[:pos] + [bad] + good[pos:]
             kw = dict(items)
@@ -708,7 +720,7 @@ def _shape_programs(rng, n):
                 b = body[:pos] + [['raise']] + body[pos:]
                 out.append([pre, ['catch', [['block', g.kvs('set', 0.0), b]]], ['get', rng.choice(g.glob), []]])
         else:
-            eid = rng.randrange(len(R.EDITS))
+            eid = rng.choice(R.OPT_IDS + [R.PERSIST])
             out.append([pre, ['call', [], eid], ['call', g.kvs('call', 0.0), eid], ['call', [], eid],
                         ['catch', [['call', g.kvs('call', 0.9), eid]]], ['call', [], eid]])
     return out
@@ -731,6 +743,20 @@ def _focus_programs():
                 out.append([['catch', [['block', kv, [['call', kv[:1], e], ['raise']]]]], ['call', kv, e]])
     for e in range(len(R.EDITS)):
         out.append([['call', [], e], ['call', [], e]])
+    # option-dependent READS on the thread's long-lived nodes: before / inside / after blocks (left normally and by
+    # exception), around set_options, first read inside or outside, for every value of every option reads depend on
+    acc = g.accG
+    for nm in ('docstr', 'trivia', 'pars', 'norm', 'norm_get', 'set_norm'):
+        if nm not in d.name_code:
+            continue
+        c = d.name_code[nm]
+        for v in [v for v in acc.get(c, []) if c20_domain._is_plain(d.values[v])][:6]:
+            kv = [[c, v]]
+            for e in R.READ_IDS:
+                rd = ['call', [], e]
+                out.append([rd, ['catch', [['block', kv, [rd, ['raise']]]]], rd, ['set', kv], rd, rd])
+                out.append([['block', kv, [rd, rd]], rd, ['catch', [['block', kv, [['raise']]]]], rd])
+                out.append([['set', kv], rd, ['block', [[c, d.enc(d.fo._GLOBAL_OPTIONS_W_DEFAULTS[nm])]], [rd]], rd])
     return out
 
 
@@ -806,6 +832,164 @@ def _visibility_case(seed):
         R.reset_options()
 
 
+def _shared_read_case(arg):
+    """two threads read the SAME unmodified node, each under its own thread defaults (A set an option, B did not);
+    every read must equal the read of a fresh tree made by the reading thread"""
+    kv, order = arg
+    d = R.dom()
+    F = d.FST
+    bad = []
+    try:
+        R.reset_options()
+        st = {}
+        R._ro(F, st)                      # the shared tree
+        ev = [threading.Event() for _ in range(4)]
+
+        def reads(tag):
+            for e in R.READ_IDS:
+                if e in R.NO_OPTS_IDS:
+                    sink = []
+                    R.run_edit(e, {}, st, R.Chk(sink, False))
+                    bad.extend([tag, R.EDIT_NAMES[e]] + a[1:] for a in sink)
+
+        def a():
+            F.set_options(**d.dec_kvs(kv))
+            if order == 'a-first':
+                reads('thread that set ' + _pretty(kv))
+            ev[0].set()
+            ev[1].wait(20)
+            reads('thread that set ' + _pretty(kv) + ' (second round)')
+            ev[2].set()
+
+        def b():
+            ev[0].wait(20)
+            reads('thread at library defaults')
+            ev[1].set()
+            ev[2].wait(20)
+            reads('thread at library defaults (second round)')
+
+        ths = [threading.Thread(target=a, daemon=True), threading.Thread(target=b, daemon=True)]
+        for t in ths:
+            t.start()
+        for t in ths:
+            t.join(40)
+        return {'bad': bad}
+    except Exception:
+        import traceback
+        return {'harness_error': traceback.format_exc()[-600:]}
+    finally:
+        R.reset_options()
+
+
+# -- nested option dicts: sub()/subn() copy_options / repl_options -----------------------------------------------------
+
+def _sub_scenarios():
+    from fst.match import M, MCall, MQSTAR
+    return [
+        ('copy-phase', 'y = f((a))\nz = f((b), c)\n', MCall(func='f', args=[M(arg=...), MQSTAR]), 'g(__FST_arg)'),
+        ('repl-phase', 'y = f(a + b)\n', MCall(func='f', args=[M(arg=...)]), '__FST_arg * 2'),
+        ('walrus', 'y = f((a := 1), b)\n', MCall(func='f', args=[M(arg=...), MQSTAR]), '[__FST_arg, (c)]'),
+    ]
+
+
+_SUB_KEYS = ['pars', 'pars_walrus']
+
+
+def _phase_rule(top, given):
+    """documented rule, plain Python: None = inherit the top-level options, a dict (also {}) = exactly that dict"""
+    return top if given is None else given
+
+
+def _run_sub(sc, top, copy_o, repl_o):
+    d = R.dom()
+    _, src, pat, repl = sc
+    f = d.FST(src, 'exec')
+    try:
+        f.sub(pat, repl, copy_options=None if copy_o is None else d.dec_kvs(copy_o),
+              repl_options=None if repl_o is None else d.dec_kvs(repl_o), **d.dec_kvs(top))
+        return f.src
+    except Exception as e:
+        return R._exc(e)
+
+
+def _sub_case(arg):
+    """sub(top-level options, copy_options=C, repl_options=P) under block defaults D must equal the same call with each
+    phase given, explicitly, the values the phase should see (rule applied to the option names in play; a missing name
+    restated with the thread default)"""
+    si, D, top, C, P = arg
+    d = R.dom()
+    sc = _sub_scenarios()[si]
+    keys = [d.name_code[k] for k in _SUB_KEYS if k in d.name_code]
+    try:
+        R.reset_options()
+        with d.FST.options(**d.dec_kvs(D)):
+            cur = d.FST.get_options()
+
+            def restate(given):
+                res = dict(map(tuple, _phase_rule(top, given)))
+                return [[k, res[k] if k in res else d.enc(cur[d.names[k]])] for k in keys]
+            got = _run_sub(sc, top, C, P)
+            ref = _run_sub(sc, top, restate(C), restate(P))
+            views = {'copy': restate(C), 'repl': restate(P)}
+        return {'got': got, 'ref': ref, 'views': views, 'snap_ok': R.at_defaults()}
+    except Exception:
+        import traceback
+        return {'harness_error': traceback.format_exc()[-600:]}
+    finally:
+        R.reset_options()
+
+
+def _pg(g):
+    return 'None' if g is None else '{}' if not g else _pretty(g)
+
+
+def _sub_sweep(ctx, full):
+    d = R.dom()
+    rng = random.Random(ctx.rng.random())
+    tops = _assignments(_SUB_KEYS)
+    c_pars = d.name_code['pars']
+    acc = {n: vs for n, vs, _ in tables()[False]}
+    givens = [None, []] + [[[c_pars, v]] for v in acc[c_pars]] + [[[d.name_code['pars_walrus'], d.true_code]]]
+    Ds = [[]] + [[[c_pars, v]] for v in acc[c_pars]]
+    jobs = []
+    for si in range(len(_sub_scenarios())):
+        for top in tops:
+            for C in givens:
+                for P in givens:
+                    for D in (Ds if full else [rng.choice(Ds)]):
+                        jobs.append((si, D, top, C, P))
+    if not full:
+        jobs = [j for j in jobs if j[3] in (None, []) or j[4] in (None, []) or rng.random() < 0.3]
+    outs = pmap(_sub_case, jobs)
+    # the model's resolution of what each phase sees (Lean) must be the rule used above
+    cases, exp = [], []
+    kind = lambda g: 'None' if g is None else '{}' if not g else 'dict'
+    for (si, D, top, C, P), o in zip(jobs, outs):
+        if 'harness_error' in o:
+            ctx.brk('correspondence', 'C20.sub', o['harness_error'])
+            return
+        for ph, g in (('copy', C), ('repl', P)):
+            cases.append({'f': 'C20.phase', 'defaults': D, 'top': top, 'given': g,
+                          'keys': [k for k, _ in o['views'][ph]]})
+            exp.append(o['views'][ph])
+    ctx.compare('what a sub() phase sees (None / {} / dict x top-level x block default) vs Pfst.Options.phaseView', cases, exp)
+    for (si, D, top, C, P), o in zip(jobs, outs):
+        name = _sub_scenarios()[si][0]
+        ctx.count(['sub', si, D, top, C, P], bool(top))
+        ctx.tally('sub_phase_given', kind(C) + '/' + kind(P))
+        if o['got'] != o['ref']:
+            ctx.fail(f'C20|sub|phase-options-not-isolated|copy={kind(C)}|repl={kind(P)}',
+                     f'sub() [{name}] with top-level options {_pretty(top) if top else "{}"}, copy_options='
+                     f'{_pg(C)}, repl_options={_pg(P)} under block defaults '
+                     f'{_pretty(D) if D else "{}"} gives {o["got"]!r}; with each phase given explicitly what it should see '
+                     f'(copy {_pretty(o["views"]["copy"])}, repl {_pretty(o["views"]["repl"])}) it gives {o["ref"]!r}',
+                     {'sub': si, 'defaults': D, 'top': top, 'copy_options': C, 'repl_options': P})
+        if not o['snap_ok']:
+            ctx.fail('C20|sub|options-not-restored', 'thread defaults changed by sub()', {'sub': si, 'defaults': D, 'top': top,
+                                                                                       'copy_options': C, 'repl_options': P})
+    ctx.notes['sub_phase_cases'] = len(jobs)
+
+
 def _script(seed, rounds):
     """a deterministic edit script with its own option blocks; returns everything it observed"""
     d = R.dom()
@@ -874,6 +1058,23 @@ def _direct(ctx, scale):
     n_doc = _doc_sweep(ctx)
     ctx.notes['doc_domain_checks'] = n_doc
     _shield_sweep(ctx, full=not q or scale > 1)
+    _sub_sweep(ctx, full=not q or scale > 1)
+    d = R.dom()
+    sjobs = []
+    for nm in ('docstr', 'trivia', 'pars'):
+        c = d.name_code.get(nm)
+        for v in [v for n, vs, _ in tables()[False] if n == c for v in vs if c20_domain._is_plain(d.values[v])][:5]:
+            for order in ('a-first', 'b-first'):
+                sjobs.append(([[c, v]], order))
+    for (kv, order), o in zip(sjobs, pmap(_shared_read_case, sjobs, chunksize=1)):
+        if 'harness_error' in o:
+            ctx.brk('correspondence', 'C20.sweep.shared-read', o['harness_error'])
+            break
+        ctx.count(['shared-read', kv, order], True)
+        for b in o['bad'][:2]:
+            ctx.fail('C20|read|long-lived-node-differs-from-fresh-tree|two-threads',
+                     f'{b[1]} on a node shared by two threads, read by the {b[0]} ({order}): ' + ' ; '.join(str(x)[:160] for x in b[2:]),
+                     {'shared_read': kv, 'order': order})
     _doc_multi(ctx, rng, int((150 if q else 1500) * scale))
     progs = _focus_programs() + _shape_programs(rng, int((300 if q else 3000) * scale))
     outs = pmap(_shape_case, progs)
@@ -955,6 +1156,14 @@ def replay(ctx, data):
             o = _shield_case((fns, eids, w['call'], [w['defaults']]))
             for b in o.get('bad', []):
                 ctx.fail('replay', f'{b[0]}: defaults {_pretty(b[1])} call {_pretty(b[2])}: {b[3][:100]!r} vs alone {b[4][:100]!r}', w)
+        elif 'sub' in w:
+            o = _sub_case((w['sub'], w['defaults'], w['top'], w['copy_options'], w['repl_options']))
+            if o.get('got') != o.get('ref'):
+                ctx.fail('replay', f'sub(): {o.get("got")!r} vs phases given explicitly {o.get("ref")!r}', w)
+        elif 'shared_read' in w:
+            o = _shared_read_case((w['shared_read'], w['order']))
+            for b in o.get('bad', []):
+                ctx.fail('replay', str(b)[:300], w)
         elif 'kvs' in w:
             v = _visibility_case(0)
             if v['bad']:
